@@ -21,6 +21,11 @@ def id_int(x: int) -> int: ...
 @guppy.declare
 def id_nat(x: nat) -> nat: ...
 
+TV = guppy.type_var("TV")
+
+@guppy.declare
+def gid(x: TV) -> TV: ...
+
 VALS = {vals}
 
 """
@@ -59,6 +64,15 @@ def source(case):
     if pos == "comptime_nested":  # tuple of (scalar, array)
         return (f"@guppy\ndef f{i}() -> tuple[{tys[0]}, frozenarray[{tys[1]}, {len(vals) - 1}]]:\n"
                 f"    return comptime((VALS[{i}][0], VALS[{i}][1:]))\n")
+    # --- positions where the constant is synthesised before it meets a parameter type
+    if pos in ("binop", "compare", "augassign", "generic"):
+        L = f"comptime(VALS[{i}][0])" if case.get("ct") else lit(vals[0])
+        if pos == "generic":
+            return f"@guppy\ndef f{i}() -> None:\n    y = gid({L})\n"
+        if pos == "augassign":
+            return f"@guppy\ndef f{i}(a: {t}) -> None:\n    n = a\n    n {case['op']}= {L}\n"
+        e = f"a {case['op']} {L}" if case.get("side", "r") == "r" else f"{L} {case['op']} a"
+        return f"@guppy\ndef f{i}(a: {t}) -> None:\n    x = {e}\n"
     raise SystemExit(f"unknown position {pos}")
 
 
@@ -83,20 +97,23 @@ def run_cases(cases):
     out = []
     for c in cases:
         f = getattr(mod, f"f{c['id']}")
+        stage = "check"
         try:
             f.check()
+            stage = "compile"
             pkg = f.compile_function()
             text = pkg.to_str()
             consts = sorted([int(a), int(b)] for a, b in CONST_RE.findall(text) + JSON_RE.findall(text.replace("\\", "")))
             # the JSON-side payload (to_value) of every top-level integer Const node
             m = pkg.modules[0]
-            jv = []
+            jv, kinds = [], []
             for n in m.descendants():
                 op = m[n].op
                 if type(op).__name__ == "Const" and type(op.val).__name__ in ("IntVal", "UnsignedIntVal"):
                     p = op.val.to_value().val
                     jv.append([p["log_width"], p["value"]])
-            out.append(["ok", consts, sorted(jv)])
+                    kinds.append([type(op.val).__name__, p["log_width"], p["value"]])
+            out.append(["ok", consts, sorted(jv), sorted(kinds)])
         except GuppyError as e:
             err = e.error
             d = {}
@@ -108,7 +125,7 @@ def run_cases(cases):
                     d[k] = str(getattr(err, k))
             out.append(["err", type(err).__name__, d])
         except Exception as e:  # internal error: reported as such
-            out.append(["crash", type(e).__name__, str(e)[:200]])
+            out.append(["crash", type(e).__name__, str(e)[:200], stage])
     return out
 
 
